@@ -21,15 +21,15 @@ import (
 )
 
 type concWorld struct {
-	msg      *cose.Sign1Message
-	smsg     *cose.SignMessage
-	cs       *cose.Countersignature
-	cs0      []byte
-	envelope []byte
-	key      *cose.Key
-	verifier cose.Verifier
-	signer   cose.Signer
-	seqOut   map[string][]byte
+	msg       *cose.Sign1Message
+	smsg      *cose.SignMessage
+	cs        *cose.Countersignature
+	cs0       []byte
+	envelope  []byte
+	key       *cose.Key
+	verifier  cose.Verifier
+	signer    cose.Signer
+	seqOut    map[string][]byte
 	bsigner   cose.Signer
 	bverifier cose.Verifier
 }
@@ -87,7 +87,19 @@ func (s *gatedSigner) Sign(_ io.Reader, content []byte) ([]byte, error) {
 	return pseudoSig(s.name, content), nil
 }
 
+// newConcWorld builds the shared values; the sequential reference outputs come from a twin world, so that the shared
+// values have not been through any call (a first call that writes to its receiver must be visible) when the threads start.
 func newConcWorld(g *gate, decoded bool) *concWorld {
+	w := buildConcWorld(g, decoded)
+	ref := buildConcWorld(nil, decoded)
+	for _, op := range []string{"marshal", "marshalsign", "keymarshal", "marshalcs"} {
+		out, _ := ref.run(0, op)
+		w.seqOut[op] = out
+	}
+	return w
+}
+
+func buildConcWorld(g *gate, decoded bool) *concWorld {
 	w := &concWorld{seqOut: map[string][]byte{}}
 	plain := &gatedSigner{name: "k", alg: cose.AlgorithmES256}
 	w.signer = &gatedSigner{name: "k", alg: cose.AlgorithmES256, g: g}
@@ -137,10 +149,6 @@ func newConcWorld(g *gate, decoded bool) *concWorld {
 		var s2 cose.SignMessage
 		must(s2.UnmarshalCBOR(b))
 		w.smsg = &s2
-	}
-	for _, op := range []string{"marshal", "marshalsign", "keymarshal", "marshalcs"} {
-		out, _ := w.run(0, op)
-		w.seqOut[op] = out
 	}
 	return w
 }
